@@ -189,8 +189,11 @@ NOTES["C13"] = dict(
           "reproduce the labels of the real sequential routines and of the distributed routines on every generated layout; totality, halo "
           "labels = owners' labels and the Ruge-Stuben neighbour clauses are evaluated on every output."),
     note=("Sequential Ruge-Stuben: bucket machine Model/RS.lean mirrors rs_first_pass/rs_second_pass (labels compared exactly); Props/C13RS.lean proves "
-          "fine-keeps-a-coarse-neighbour for every visit order, that the second pass only promotes and never promotes every fine point, and "
-          "totality / one-coarse-one-fine under two hypotheses on the bucket order that the driver evaluates on every instance. Distributed RS, "
+          "fine-keeps-a-coarse-neighbour for every visit order, that the second pass only promotes and never promotes every fine point; "
+          "Props/C13RSCover.lean proves that the bucket arithmetic (bump, drop1, the counting sort) visits every column — the invariant couples "
+          "weight_idx_to_col, col_to_weight_idx, weights, weight_ptr, weight_sizes and the labels — so totality and one-coarse-one-fine hold "
+          "for every strength graph without self-dependence (splitRS_total_proved, splitRS_mixed_of_edge_proved); the driver still evaluates "
+          "the visit order per instance as a cross-check of the model against the code. Distributed RS, "
           "Falgout and HMIS: specification predicates only. Open findings: distributed RS ignores off-process "
           "dependencies; distributed PMIS/CLJP treat vertices without own dependency differently from the sequential routines."),
     technique="Lean 4 proof on round-synchronous executable models; label-level correspondence (seq and par)",
